@@ -526,3 +526,13 @@ RULES = [
     ("C01.R4", r4_wrappers),
     ("C01.R5", r5_relative_location),
 ]
+
+def r6i_identity(ctx):
+    """locations on equal parents are comparable whether or not the two Parent objects are the same object (the constructor cache
+    holds 1000 entries; an equal parent built later, or spelled with its keyword arguments in another order, is another object):
+    no identity comparison between Parent / Location / Sequence values outside an equality fast path (shared with C10.R6)"""
+    from .c10 import r6_identity
+    r6_identity(ctx, rule="C01.R6i")
+
+
+RULES.append(("C01.R6i", r6i_identity))
